@@ -133,7 +133,7 @@ CLAIMED["C24"] = dict(
     note="Dominance: bounded stand-in only, never counted as proved. Post-order: proved up to termination, with trusted models of dict.fromkeys and of the "
          "two comprehensions bound to their exact source text.",
     design="§4 C24, §9",
-    technique="bounded exhaustive runtime-contract check against graph definitions (stand-in) + discharged contracts on the dominance table readers and on PostOrderIterator (object invariant, ghost history)",
+    technique="bounded exhaustive runtime-contract check against graph definitions (stand-in) + discharged contracts on the dominance table readers, on DominanceInfo.__init__ (fixpoint equations at exit, nested loop invariants over sets of sets) and on PostOrderIterator (object invariant, ghost history)",
 )
 
 CLAIMED["C26"] = dict(
